@@ -4,7 +4,7 @@ import math
 
 from common import Fr, fq, dec, lean_query
 import impl
-from tracers import eval_noise, ApiTracer, LABELS, dlpoly_tokens, dlpoly_raw, FormatError, real_potential
+from tracers import potable_real_models, ref_values, eval_noise, ApiTracer, LABELS, dlpoly_tokens, dlpoly_raw, FormatError, real_potential
 from props.C01 import first_diff
 
 from atsim.potentials import Potential, writePotentials
@@ -145,6 +145,53 @@ def check(run):
                 run.fail("dlpoly-table-mismatch", "DL_POLY TABLE differs from the model/property: %s" % dd,
                          dict(case=small, route=small["route"], first_difference=dd, impl_tokens=tt, model_tokens=mm, original_case=c))
     real_stream(run)
+    potable_real_stream(run)
+
+
+def potable_real_stream(run):
+    """Numerical leg through the configuration-file route: [Pair] entries that are random potential EXPRESSIONS (modifiers, ranges, splines); the k-th
+    energy must be the expression's documented value at k*delpot and the k-th force value -r dV/dr there (reference: the same expression composed
+    through the Python API, differentiated numerically)."""
+    nbad = 0
+    for cfg, cut, nr, ents in potable_real_models(run.rng, run.n(30, 400), "DL_POLY", lambda rng: 4 * rng.randint(2, 12)):
+        run.case(key=("potable-real", cfg), kind="potable-real", sample=dict(potable_file=cfg) if run.dist.get("potable-real", 0) < 1 else None)
+        run.traces += 1
+        try:
+            out = impl.config_tabulate(cfg)
+        except Exception as e:
+            if isinstance(e, (OverflowError, ZeroDivisionError, ValueError)) or "math" in str(e):
+                continue
+            raise
+        problem = None
+        try:
+            delpot, cutpot, ngrid, blocks = dlpoly_raw(out)
+        except FormatError:
+            continue        # values too wide for the fixed-width layout (huge energies at small r): C02's layout claim is checked on the tracer stream
+        dq = Fr(repr(cut)) / (nr - 4)
+        for (a, b_, f, bounds, txt), (la, lb, recs) in zip(ents, blocks):
+            vals = [x.strip() for rec in recs for x in rec]
+            if len(vals) != 2 * nr:
+                problem = "%s-%s: %d values, expected 2*%d" % (a, b_, len(vals), nr)
+                break
+            for k in range(1, nr + 1):
+                r = float(Fr(k) * dq)
+                rv = ref_values(f, r, bounds + [0.0])
+                if rv is None:
+                    continue
+                ev, slope = rv
+                if abs(float(Fr(vals[k - 1])) - ev) > 0.6e-7 * abs(ev) + abs(slope) * 8 * math.ulp(r) * nr + 2 * eval_noise(f, r) + 1e-300:
+                    problem = "%s-%s : %s, energy %d (r=%r) printed %s, the expression's value is %r" % (a, b_, txt, k, r, vals[k - 1], ev)
+                    break
+                ref = -r * slope
+                if abs(float(Fr(vals[nr + k - 1])) - ref) > 1e-5 * max(1.0, abs(ref)) + 1e-9 * abs(ev) * r:
+                    problem = "%s-%s : %s, force value %d (r=%r) printed %s, -r dV/dr = %r" % (a, b_, txt, k, r, vals[nr + k - 1], ref)
+                    break
+            if problem:
+                break
+        if problem:
+            nbad += 1
+            if nbad <= 2:
+                run.fail("dlpoly-potable-real-numeric", "potable real-function stream: " + problem, dict(potable_file=cfg, problem=problem))
 
 
 def real_stream(run):
